@@ -111,11 +111,12 @@ CLAIMED = {
     "C10": entry(
         "the error cases of a call (undefined function, wrong argument count, DEF at the prompt) and the return protocol (the body's value is kept, "
         "everything down to the return address is dropped, control returns to the saved address, variables untouched); mangled parameter names "
-        "contain a '.' (Props/C10.v).",
+        "contain a '.', and the scanner -- for every source text, post passes included -- produces no identifier containing one, so a parameter's "
+        "storage name is no identifier of any line and binding it leaves every variable a program can name unchanged (Props/C10.v, Proofs/LexIdent.v).",
         "programs with nested calls, same-named globals, DEFtype settings, arity errors and recursion on model and crate, compared with Spec/Sem.v, "
         "which binds parameters in a local environment typed by their own names.",
-        "PARTIAL: locality of parameters and call-time evaluation end to end are decided by the monitor, not proved.",
-        "Coq theorems on the call protocol + model/implementation/reference-semantics differential check"),
+        "PARTIAL: call-time evaluation of the other variables, nesting and the stack discipline end to end are decided by the monitor, not proved.",
+        "Coq theorems on the call protocol and on the privacy of parameter names + model/implementation/reference-semantics differential check"),
     "C11": entry(
         "the cursor column is the number of characters since the last newline, across items and statements; ',' prints 14 - col mod 14 blanks; TAB(n) "
         "prints n - col blanks or nothing; PRINT moves the column by exactly what it emits; a number carries one trailing blank (Props/C11.v).",
